@@ -343,12 +343,15 @@ def check_poke(item):
         val = sym_int('val', 0, 255)
         old = {}
         for a in range(BASE - 1, BASE + 5):
-            v = sym_int('m%d' % a, 0, 255)
-            old[a] = v
             if paged:
-                for b in banks:
+                # every bank holds its own value (an implementation reading the old value through the 64K map is then visible)
+                for bi, b in enumerate(banks):
+                    v = sym_int('m%d_%d' % (bi, a), 0, 255)
+                    old[(bi, a)] = v
                     b[a % 0x4000] = v
             else:
+                v = sym_int('m%d' % a, 0, 255)
+                old[a] = v
                 mem[a] = v
         spec = ('%s:' % page if paged else '') + '%s,%s%s' % (addr, op, val)
         snap.poke(mem, spec)
@@ -368,7 +371,7 @@ def check_poke(item):
                 for a in range(BASE - 1, BASE + 5):
                     cur = b[a % 0x4000]
                     hit = z3.And(addr.e == a, z3.BoolVal(bi == pg))
-                    diffs.append(bv(cur) != z3.If(hit, bv(f(old[a])), bv(old[a])))
+                    diffs.append(bv(cur) != z3.If(hit, bv(f(old[(bi, a)])), bv(old[(bi, a)])))
         else:
             for a in range(BASE - 1, BASE + 5):
                 diffs.append(bv(mem[a]) != z3.If(addr.e == a, bv(f(old[a])), bv(old[a])))
@@ -380,7 +383,7 @@ def check_poke(item):
         if r == 'sat':
             res['violations'].append(dict(key='%s:frame' % name, text='%s: cells other than the addressed one change, or the addressed cell gets the wrong value (addr %d, value %d)'
                                           % (name, mod.eval(addr.e, model_completion=True).as_long(), mod.eval(val.e, model_completion=True).as_long()),
-                                          case=dict(kind='poke', op=op, paged=paged, addr=mod.eval(addr.e, model_completion=True).as_long(), val=mod.eval(val.e, model_completion=True).as_long())))
+                                          case=dict(kind='poke', op=op, paged=paged, page=(pg if paged else None), addr=mod.eval(addr.e, model_completion=True).as_long(), val=mod.eval(val.e, model_completion=True).as_long())))
             return
         res['discharged'] += 1
         res['nontrivial'] += 1
@@ -450,8 +453,120 @@ def check_pokerange(item):
     return finish(res, st)
 
 
+def check_move(item):
+    """('move', mode): --move src,length,dest copies the block and changes nothing else; mode: 'flat', 'overlap', 'paged', 'bankend'"""
+    _, mode = item
+    st = Stats()
+    res = new_res()
+    import skoolkit.snapshot as snap
+    name = 'move (%s)' % mode
+    paged = mode in ('paged', 'bankend')
+    BASE = 40000 if not paged else (49152 + 100 if mode == 'paged' else 49152 + 0x4000 - 5)
+    LO, HI = BASE - 1, min(BASE + 12, 65536)
+    SP, DP = 1, 4
+
+    def fn(path):
+        old = {}
+        if paged:
+            banks = [[0] * 0x4000 for _ in range(8)]
+            mem = snap.Memory(banks=banks, page=0)
+            for bi in (SP, DP):
+                for a in range(LO, HI):
+                    v = sym_int('m%d_%d' % (bi, a), 0, 255)
+                    old[(bi, a)] = v
+                    banks[bi][a % 0x4000] = v
+        else:
+            banks = None
+            mem = snap.Memory(snapshot=[0] * 65536)
+            for a in range(LO, HI):
+                v = sym_int('m%d' % a, 0, 255)
+                old[a] = v
+                mem[a] = v
+        src = sym_int('src', BASE, BASE + 3)
+        if mode == 'overlap':
+            dest = sym_int('dest', BASE, BASE + 6)
+        else:
+            dest = sym_int('dest', BASE + 4, BASE + 6) if not paged else sym_int('dest', BASE, BASE + 3)
+        length = sym_int('length', 1, 4)
+        spec = ('%d:%s,%s,%d:%s' % (SP, src, length, DP, dest)) if paged else '%s,%s,%s' % (src, length, dest)
+        snap.move(mem, spec)
+        return mem, banks, src, dest, length, old
+
+    def on(p, out):
+        res['obligations'] += 1
+        if isinstance(out, tuple) and out[0] == 'exception':
+            res['violations'].append(dict(key='%s:exception' % name, text='%s raises %r' % (name, out[1]), case=dict(kind='move', mode=mode)))
+            return
+        mem, banks, src, dest, length, old = out
+        s_, d_, n_ = p.realise(src.e, 'src'), p.realise(dest.e, 'dest'), p.realise(length.e, 'length')
+        case = dict(kind='move', mode=mode, src=s_, dest=d_, length=n_)
+        structural, diffs = [], []
+        if paged:
+            for bi, b in enumerate(banks):
+                if len(b) != 0x4000:
+                    structural.append('bank %d has %d bytes after the move' % (bi, len(b)))
+            if not structural:
+                for a in range(LO, HI):
+                    o = a % 0x4000
+                    exp = old[(SP, s_ + (a - d_))] if d_ <= a < d_ + n_ and (s_ + a - d_) < HI else old[(DP, a)]
+                    if d_ <= a < d_ + n_ and (s_ + a - d_) >= HI:
+                        continue
+                    diffs.append(bv(banks[DP][o]) != bv(exp))
+                    diffs.append(bv(banks[SP][o]) != bv(old[(SP, a)]))
+        else:
+            for a in range(LO, HI):
+                exp = old[s_ + (a - d_)] if d_ <= a < d_ + n_ else old[a]
+                diffs.append(bv(mem[a]) != bv(exp))
+        if structural:
+            r, mod = p.check(model=True)
+        else:
+            r, mod, _w = p.check_any(diffs)
+        if r == 'unknown':
+            res['inconclusive'].append(name); return
+        if r == 'sat':
+            res['violations'].append(dict(key='%s:%s' % (name, 'bank size' if structural else 'frame'), text='%s: --move %d,%d,%d %s' % (name, s_, n_, d_, '; '.join(structural) or 'does not leave exactly the copied block at the destination'), case=case))
+            return
+        res['discharged'] += 1
+        res['nontrivial'] += 1
+
+    try:
+        explore(fn, stats=st, on_path=on)
+    except Inconclusive as e:
+        res['inconclusive'].append('%s: %s' % (name, e))
+    return finish(res, st)
+
+
+def replay_move(case):
+    import skoolkit.snapshot as snap
+    mode, s_, d_, n_ = case['mode'], case['src'], case['dest'], case['length']
+    if mode in ('paged', 'bankend'):
+        banks = [[(bi * 31 + o * 7 + o // 256) % 256 for o in range(0x4000)] for bi in range(8)]
+        exp = [list(b) for b in banks]
+        mem = snap.Memory(banks=banks, page=0)
+        try:
+            snap.move(mem, '1:%d,%d,4:%d' % (s_, n_, d_))
+        except Exception as e:
+            return True, 'raises %r' % e
+        sizes = [len(b) for b in banks]
+        if sizes != [0x4000] * 8:
+            return True, 'bank sizes after --move 1:%d,%d,4:%d: %r' % (s_, n_, d_, sizes)
+        for k in range(n_):
+            if (d_ + k) % 0x4000 >= (d_ % 0x4000) and (s_ % 0x4000) + k < 0x4000 and (d_ % 0x4000) + k < 0x4000:
+                exp[4][(d_ % 0x4000) + k] = exp[1][(s_ % 0x4000) + k]
+        got = [list(b) for b in banks]
+        return got != exp, 'paged move result differs' if got != exp else 'block copied, nothing else changed'
+    data = [(a * 7 + a // 256) % 256 for a in range(65536)]
+    mem = snap.Memory(snapshot=list(data))
+    snap.move(mem, '%d,%d,%d' % (s_, n_, d_))
+    exp = list(data)
+    exp[d_:d_ + n_] = data[s_:s_ + n_]
+    got = [0] * 16384 + mem[16384:65536]
+    exp[:16384] = [0] * 16384
+    return got != exp, '--move %d,%d,%d: %r at the destination, expected %r' % (s_, n_, d_, got[d_:d_ + n_], exp[d_:d_ + n_]) if got != exp else 'block copied, nothing else changed'
+
+
 def work(item):
-    return {'rle': check_rle, 'hdr': check_hdr, 'poke': check_poke, 'pokerange': check_pokerange}[item[0]](item)
+    return {'rle': check_rle, 'hdr': check_hdr, 'poke': check_poke, 'pokerange': check_pokerange, 'move': check_move}[item[0]](item)
 
 
 # ---------------------------------------------------------------------------
@@ -542,9 +657,23 @@ def replay(case):
         got = mem[0:65536]
         got[:16384] = [0] * 16384
         return got != exp, 'memory after the poke differs from the documented effect' if got != exp else 'as documented'
+    if kind == 'move':
+        if 'src' not in case:
+            return False, 'no input'
+        return replay_move(case)
     if kind == 'poke':
         if 'addr' not in case:
             return False, 'no input'
+        if case.get('paged'):
+            banks = [[(bi * 31 + o * 7 + o // 256) % 256 for o in range(0x4000)] for bi in range(8)]
+            exp = [list(b) for b in banks]
+            mem = snap.Memory(banks=banks, page=0)
+            snap.poke(mem, '%d:%d,%s%d' % (case['page'], case['addr'], case['op'], case['val']))
+            f = {'': lambda b: case['val'], '^': lambda b: b ^ case['val'], '+': lambda b: (b + case['val']) & 255}[case['op']]
+            o = case['addr'] % 0x4000
+            exp[case['page']][o] = f(exp[case['page']][o])
+            got = [list(b) for b in banks]
+            return got != exp, 'paged poke %d:%d: bank cell is %d, expected %d' % (case['page'], case['addr'], got[case['page']][o], exp[case['page']][o]) if got != exp else 'poke changes exactly the addressed cell'
         mem = snap.Memory(snapshot=list(range(256)) * 256)
         before = mem[0:65536]
         snap.poke(mem, '%d,%s%d' % (case['addr'], case['op'], case['val']))
@@ -584,6 +713,7 @@ def main():
         items.append(('poke', op, False))
         items.append(('poke', op, True))
     items += [('pokerange', False), ('pokerange', True)]
+    items += [('move', m) for m in ('flat', 'overlap', 'paged', 'bankend')]
     if args.only:
         items = [i for i in items if args.only in harness.item_name(i)]
     rep = harness.Report(
